@@ -288,7 +288,12 @@ def run(ctx):
             for i, s_ in writes_field(b, f):
                 nw += 1
                 fn_ = b.q.split("::{")[0].rsplit("::", 1)[1]
-                res.check(fn_ in okset and "::command::Command::" in b.q, "R11.7", "name-writer|%s|%s" % (f, fn_), "%s in %s" % (sp_str(s_["sp"]), b.q), "%s written by %s" % (f, fn_),
+                okw = fn_ in okset and "::command::Command::" in b.q
+                if not okw and "::command::Command::" in b.q:
+                    # a private helper that only the reviewed writers call is one of them
+                    callers = set(x.q.split("::{")[0].rsplit("::", 1)[1] for x in fx.bodies(r"^clap_builder::") for c_ in x.calls() if c_.callee_q == b.q)
+                    okw = bool(callers) and callers <= okset and not b.d.get("vis") == "Public"
+                res.check(okw, "R11.7", "name-writer|%s|%s" % (f, fn_), "%s in %s" % (sp_str(s_["sp"]), b.q), "%s written by %s" % (f, fn_),
                           "Command::%s is also written by %s: names fixed outside the reviewed builders change what later parses and renderings show (e.g. argv[0] is ignored once bin_name is set)" % (f, b.q))
     res.floor("R11.7", "writes of bin_name/display_name/usage_name", nw, 8)
     # ---- R11.8 flatten_help renderers always work on their own freshly built clone
